@@ -298,4 +298,35 @@ theorem isVectorStarBasis_sound_exact (I : Inst) (h : I.check = true) (h0 : I.to
     have := abs_nonpos_iff.mp (hov i j)
     linarith
 
+/-! ### non-vacuity: a concrete instance accepted by the checker (tol = 0) -/
+
+/-- C4 acting on the four first neighbours of the square lattice (no mirrors): two vector stars -/
+def exPts : Fin 4 → Fin 2 → Rat := fun s a =>
+  match s.val, a.val with
+  | 0, 0 => 1 | 0, _ => 0
+  | 1, 0 => 0 | 1, _ => 1
+  | 2, 0 => -1 | 2, _ => 0
+  | _, 0 => 0 | _, _ => -1
+/-- rotation by k·90° -/
+def exRot : Fin 4 → Fin 2 → Fin 2 → Rat := fun g a b =>
+  match g.val, a.val, b.val with
+  | 0, 0, 0 => 1 | 0, 0, _ => 0 | 0, _, 0 => 0 | 0, _, _ => 1
+  | 1, 0, 0 => 0 | 1, 0, _ => -1 | 1, _, 0 => 1 | 1, _, _ => 0
+  | 2, 0, 0 => -1 | 2, 0, _ => 0 | 2, _, 0 => 0 | 2, _, _ => -1
+  | _, 0, 0 => 0 | _, 0, _ => 1 | _, _, 0 => -1 | _, _, _ => 0
+def exInst : Inst where
+  n := 4; d := 2; N := 4; m := 2
+  perm := fun g s => s + g
+  rho := exRot
+  rhoInv := fun g => exRot (-g)
+  mul := fun h g => h + g
+  v := fun i s a => if i.val = 0 then exPts s a / 2 else exPts (s + 1) a / 2
+  tol := 0
+/-- the hypotheses of the soundness theorems are satisfiable: C4 on the square-lattice first shell, two vector
+    stars (parallel and perpendicular), exact arithmetic -/
+example : exInst.check = true := by decide +kernel
+
+example : Submodule.span ℚ (Set.range fun i => unc (exInst.v i)) = equivariantSpace exInst :=
+  (isVectorStarBasis_sound_exact exInst (by decide +kernel) rfl).2.2.2
+
 end Onsager.C25
